@@ -32,6 +32,7 @@ ExpectedFor(doc, tr, ms, elemH, docH, i) ==
        [] t.k = "cm" -> E("cm", LAMBDA h : elemH[h].cm /\ InScope(h)) \o D("cm", LAMBDA j : docH[j].cm)
        [] t.k = "dt" -> D("dt", LAMBDA j : docH[j].dt)
        [] t.k = "et" -> <<>>      \* end-tag handlers: see EndTagBag
+       [] t.k = "raw" -> <<>>     \* CDATA section markers: no token, no handler
 
 \* end-tag handlers at end tag item i: one per (closed element, element handler that matched it), as a bag
 \* (the order among handlers of different elements closed by one end tag is not constrained)
